@@ -66,6 +66,7 @@ def generic(profile="verif", extra_sets=(), timeout_quick=1500, timeout_thorough
                         continue  # the I/O shim and the ASan runtime both want to be first
                 else:
                     senv["TSAN_OPTIONS"] = "halt_on_error=0:exitcode=66:second_deadlock_stack=1"
+                    senv.pop("LD_PRELOAD", None)  # the uninstrumented shim stays out of the ThreadSanitizer pass
                     ssets.append("tsan=1")
                 s2, c2, t2 = ctx["run_shards"](ctx["pid"], ctx["tier"], ctx["seed"] + 104729, ctx["rundir"], n, binary, ssets, senv, to, tag="-" + kind)
                 for s in s2:
@@ -131,7 +132,7 @@ PROPS = {
         "rule": HISTORY_RULE + "non-trivial = the history changed the structure of a tree at least once (leaf count or depth changed "
                 "between two commits, an overflow run was written, or the file grew) as measured on the file by the independent parser.",
         "run": generic(sanitizers=('asan',), thorough_profiles=("verif-rel",), quick_profiles=("verif-rel",)),
-        "floors": {"any": {"commits": 100, "leaf_count_increases(splits)": 5, "leaf_count_decreases(merges)": 5,
+        "floors": {"any": {"histories_root-directory": 60, "histories_bucket-directory": 300, "commits": 100, "leaf_count_increases(splits)": 5, "leaf_count_decreases(merges)": 5,
                            "depth_decreases(root_collapse)": 1, "depth_increases": 1, "reopens": 10, "rollbacks": 5,
                            "commits_with_overflow_runs": 5}},
         "assumptions": ["the reference model (harness/src/model.rs) is the intended sequential semantics of the public API",
@@ -184,7 +185,7 @@ PROPS = {
                 "from every open reader's snapshot; after every writer the bytes of every pinned snapshot are re-hashed. "
                 "distinct = distinct step sequence; non-trivial = a sequence in which pages were rewritten in place while a reader was open.",
         "run": generic(sanitizers=('asan',), thorough_profiles=("verif-rel",)),
-        "floors": {"any": {"full_reader_verifications": 500, "free_set_invariant_evaluations": 200,
+        "floors": {"any": {"db_check_calls_while_readers_were_open": 2000, "full_reader_verifications": 500, "free_set_invariant_evaluations": 200,
                            "pages_rewritten_in_place_while_a_reader_was_open": 50, "max_readers": 3}},
         "assumptions": ["single thread: histories that would need a file growth with an open reader are skipped (documented self-deadlock) and counted as inconclusive"],
     },
@@ -193,14 +194,17 @@ PROPS = {
         "rule": "cases = long runs (quick 300, thorough 5000 transactions) of {fixed-size overwrite, variable-size overwrite incl. 4-page values, "
                 "delete/reinsert, sub-bucket create/delete} x {no reopen, reopen every 25} x {no reader, reader held open for a stretch}, plus reader hand-over runs "
                 "(a reader is open at every writer begin but none for longer than one transaction), sub-buckets holding multi-page values, and large-bucket "
-                "fill/drop runs (free list of several pages, reopen after every 1st/3rd/4th transaction). After every "
+                "fill/drop runs (free list of several pages, reopen after every 1st/3rd/4th transaction), a fragmented free set, a run after reader churn on "
+                "eight threads, and top-level bucket cycles (12-25 top-level buckets created, then deleted in two parts by transactions that open nothing, so "
+                "that some commits free pages without writing any; reopen after every 1st/2nd/3rd commit). Whenever no reader is open, the free set of the next "
+                "writer must equal exactly the pages the newest header does not reach. After every "
                 "commit the header's page high-water mark hwm(t) is read from the file, the independent parser measures L = max live pages and "
                 "D = max pages newly written by one commit and checks page conservation. Bounds (derived from the allocation discipline, DESIGN.md "
                 "C10): fixed-size hwm <= L+2D+8 and no second-half growth above D; variable-size hwm <= 4(L+D)+16 and second-half growth <= 10%+D; "
                 "while a reader is open at most D pages per transaction; after it closes hwm(c+k) <= hwm(c+2)+D. "
                 "non-trivial = run of >= 40 transactions in which pages below the previous high-water mark were re-allocated.",
         "run": generic(sanitizers=('asan',), thorough_profiles=()),
-        "floors": {"any": {"transactions": 1000, "pages_allocated_below_previous_hwm(reuse)": 1000, "runs_with_periodic_reopen": 5, "writer_begins_whose_free_set_was_compared_with_the_unreachable_pages": 2000, "runs_with_a_multi_page_free_list": 4, "short_readers_opened_and_closed_on_8_threads_before_a_run": 1000, "runs_with_reader_held": 2, "runs_with_reader_hand_over": 2}},
+        "floors": {"any": {"commits_that_freed_pages_without_writing_a_tree_page": 2, "transactions": 1000, "pages_allocated_below_previous_hwm(reuse)": 1000, "runs_with_periodic_reopen": 5, "writer_begins_whose_free_set_was_compared_with_the_unreachable_pages": 2000, "runs_with_a_multi_page_free_list": 4, "short_readers_opened_and_closed_on_8_threads_before_a_run": 1000, "runs_with_reader_held": 2, "runs_with_reader_hand_over": 2}},
         "assumptions": ["bounds are sufficient conditions for a plateau, not the tightest possible"],
     },
     "C06": {
@@ -214,12 +218,17 @@ PROPS = {
                 "through a read-only transaction - on handles looked up by name AND on handles handed out by the iterators - must return ReadOnlyTx, and neither "
                 "that nor open+close (with the creation options and with three other initial page counts) may change the file's bytes; (e) on a fifth of "
                 "the histories the last commit is made to fail by an injected write error (first, middle, last data write, header write; nothing written): "
-                "the prior state must stay current, the handle's shared bookkeeping must be identical, and the retried transaction must commit soundly. "
+                "the prior state must stay current, the handle's shared bookkeeping must be identical, and the retried transaction must commit soundly; "
+                "(f) a write transaction in which every call fails is committed and must write exactly the pages an empty transaction's commit writes; (g) a "
+                "strict-mode commit that the built-in check refuses leaves file and readers on the previous state; (h) case (e) on two directed histories whose "
+                "last commit extends a minimum-size file (1 MiB / 9 MiB value), with every write fault and with the failure of each mmap after the extension, "
+                "the retried transaction being read back in full through the same handle. "
                 "non-trivial = history with at least one rolled-back transaction whose before/after state was compared.",
         "run": generic(thorough_profiles=("verif-rel",), env=SHIM_ENV, pre=build_shim),
         "floors": {"any": {"rollbacks_checked(file bytes + shared state)": 50, "twin_runs": 20, "read_only_mutator_calls": 500,
                            "error_returning_calls_followed_by_full_verification": 50,
-                           "commits_failed_by_injected_write_error_and_checked_for_traces": 20}},
+                           "commits_failed_by_injected_write_error_and_checked_for_traces": 20,
+                           "failed_commits_that_had_extended_the_file(write_and_mmap_faults)": 50, "error_only_transactions_compared_with_an_empty_commit": 100}},
         "assumptions": ["physical page ids / high-water mark are not compared between twins (HashMap iteration order makes allocation order vary between identical runs)"],
     },
     "C12": {
@@ -230,11 +239,14 @@ PROPS = {
                 "header write). Each mutated copy is opened through the public API and read in full; if the mutation touches a semantic byte (type byte, "
                 "the nine fields, the checksum) the contents must equal the state of the INTACT header, otherwise one of the two recorded states; every "
                 "16th open is followed by a commit and DB::check. A reduced mutation set is also applied to files created with 4..16 initial pages after "
-                "1-3 small commits (files that are full to their last page) and to files whose newest commit changed nothing. "
+                "1-3 small commits (files that are full to their last page), to files whose newest commit changed nothing, to files whose previous "
+                "commit wrote a free list of several pages (DB::check runs right after every open of a damaged file), and to files whose headers "
+                "the current code did not (all) write: legacy-format (SHA3) header pairs, a legacy header next to a current one, files of the pinned "
+                "release after one or two further commits. "
                 "exhaustive=true when every offset got all 255 values. "
                 "non-trivial = mutation touching a semantic byte.",
-        "run": generic(thorough_profiles=()),
-        "floors": {"any": {"outcome:fell-back-to-previous": 1000, "outcome:kept-newest": 1000, "region:type-byte": 100, "region:checksum": 500,
+        "run": generic(thorough_profiles=(), pre=unpack_golden, extra_sets=("golden=" + os.path.join(ROOT, "out", "golden"),)),
+        "floors": {"any": {"base_files_with_headers_the_current_code_did_not_write": 12, "mutations_on_base_files_with_foreign_headers": 500, "outcome:fell-back-to-previous": 1000, "outcome:kept-newest": 1000, "region:type-byte": 100, "region:checksum": 500,
                            "small_and_noop_base_files": 40, "mutations_on_small_and_noop_base_files": 2000}},
         "assumptions": ["FNV-1a is a bijection per absorbed byte, so every single-byte change of a hashed field is detectable; 2^-64 accidental matches of multi-byte overwrites are ignored"],
     },
@@ -251,7 +263,7 @@ PROPS = {
                 "or the new state; the image holding all writes of an acknowledged commit must show the new state), reopened through the public API "
                 "(same contents, DB::check), and every 8th takes one more commit. distinct/non-trivial = distinct image bytes.",
         "run": generic(thorough_profiles=(), env=SHIM_ENV, pre=lambda ctx: (build_shim(ctx), unpack_golden(ctx)), extra_sets=("golden=" + os.path.join(ROOT, "out", "golden"),)),
-        "floors": {"any": {"commits_analysed": 20, "workloads_on_files_written_by_the_pinned_release": 3, "workloads_recorded_with_direct_writes": 4, "crash_images_tested(distinct bytes)": 2000, "images_showing_previous_state": 200,
+        "floors": {"any": {"workloads_with_a_reader_open_at_every_writer_begin_and_closed_before_its_commit": 4, "commits_analysed": 20, "workloads_on_files_written_by_the_pinned_release": 3, "workloads_recorded_with_direct_writes": 4, "crash_images_tested(distinct bytes)": 2000, "images_showing_previous_state": 200,
                            "images_showing_new_state": 50, "header_word_torn_images_generated": 500, "sync_events_recorded": 20, "directed_workloads": 6,
                            "commits_that_extended_the_file": 4, "commits_with_a_multi_page_free_list": 2}},
         "assumptions": ["file size metadata is durable at the point it was observed", "a sync makes every earlier write durable; writes are torn at 512-byte sectors, the header record at 8-byte words",
@@ -297,7 +309,7 @@ PROPS = {
                 "files with 1..5 commits (newest legacy header in slot 0 and in slot 1) get the same treatment. Per produced file: the pinned-layout reader must parse "
                 "it to the manifest contents. The space is finite and fully enumerated (exhaustive). non-trivial = every case.",
         "run": generic(sanitizers=('asan',), thorough_profiles=("verif-rel",), quick_profiles=("verif-rel",), pre=unpack_golden, extra_sets=("golden=" + os.path.join(ROOT, "out", "golden"),)),
-        "floors": {"any": {"golden_files_checked": 8, "legacy_header_files_checked": 4, "opens_fully_verified_against_manifest": 8,
+        "floors": {"any": {"files_with_a_multi_page_root_directory_written_reopened_and_parsed": 4, "pinned_release_files_with_repeated_free_list_ids_checked": 2, "header_pairs_checked_for_alternation_after_further_commits": 600, "golden_files_checked": 8, "legacy_header_files_checked": 4, "opens_fully_verified_against_manifest": 8,
                            "further_commits_on_golden_files": 800, "legacy_files_with_1_to_5_commits_checked": 10, "files_whose_free_list_exactly_fills_its_pages_reopened": 2,
                            "free_list_walk_reopens": 300, "mismatching_page_sizes_refused": 48, "files_produced_by_current_code_parsed": 4,
                            "golden_files_with_garbage_in_uninitialised_padding": 8, "small_file_page_size_mismatches_refused": 25}},
@@ -315,13 +327,13 @@ PROPS = {
                 "decisions; non-trivial = execution with at least one preemption or lock-blocked worker (or a free-running one). "
                 "Scenarios: 1-2 reader threads (1-2 read transactions each, re-reading 1-2 times) against one writer thread chaining 2-4 page-reusing "
                 "commits (also from two writer threads), variants with a commit that grows the file (last, or followed by page-reusing commits), one "
-                "starting on a file that is full to its last page. Oracle from a global event counter: a reader's first full read must equal a "
+                "starting on a file that is full to its last page, one after a growing commit whose remap was made to fail (file long, shared map short); between its read transactions every reader thread calls DB::check(), a reader of its own that also reads its snapshot's free-list page. Oracle from a global event counter: a reader's first full read must equal a "
                 "committed state S_i with (#commits returned before its begin was called) <= i <= (#commits started before its begin returned); every "
                 "re-read must equal the first; no writer alive during the reader's life may have pages reachable from the reader's (older) snapshot in "
                 "its private free set (probe hook); nothing panics; after an execution in which every transaction ended the shared list of registered "
                 "readers is empty and the file passes the independent parser and DB::check.",
-        "run": generic(sanitizers=('tsan',), thorough_profiles=(), nshards=8, timeout_quick=1800),
-        "floors": {"any": {"executions": 1000, "executions_starting_on_an_exactly_full_file": 100, "preemptions": 1000, "reader_transactions_judged": 1000, "readers_that_outlived_a_later_commit": 100,
+        "run": generic(sanitizers=('tsan',), thorough_profiles=(), nshards=8, timeout_quick=1800, env=SHIM_ENV, pre=build_shim),
+        "floors": {"any": {"executions": 1000, "executions_starting_on_an_exactly_full_file": 100, "executions_starting_after_a_failed_remap(file_long,map_short)": 100, "preemptions": 1000, "reader_transactions_judged": 1000, "readers_that_outlived_a_later_commit": 100,
                            "writer/reader_pairs_checked_for_free_set_safety": 500, "free_running_executions": 100}},
         "assumptions": ["the total order of harness events comes from one SeqCst counter", "schedules are enumerated at the instrumented yield points only"],
     },
@@ -336,11 +348,11 @@ PROPS = {
                 "decisions; non-trivial = execution with at least one preemption or lock-blocked worker (or a free-running one). "
                 "Scenarios: 2-3 writer threads doing read-modify-write increments of one counter (each also writes a unique key), one variant writing a "
                 "1 MiB value so that the file grows and is remapped, with 1-2 reader threads checking counter == number of increment keys inside one "
-                "snapshot and calling DB::check() after closing it; one variant starts on a file that is full to its last page. Oracle: a harness-side flag strictly inside the span the write transaction is open must never see two writers; final counter "
+                "snapshot and calling DB::check() after closing it; one variant starts on a file that is full to its last page, one after a growing commit whose remap was made to fail (mmap -> ENOMEM through the I/O shim), so that the file is long, the shared map short, and the growing increment maps the file again without extending it. Oracle: a harness-side flag strictly inside the span the write transaction is open must never see two writers; final counter "
                 "== committed increments == increment keys; no counter value read by two committed increments; every thread finishes: a state in which "
                 "every unfinished worker sits in a futex wait is a deadlock; a reader found blocked while no writer is extending the file is a violation.",
-        "run": generic(sanitizers=('tsan',), thorough_profiles=(), nshards=8, timeout_quick=1800),
-        "floors": {"any": {"executions": 1000, "preemptions": 1000, "committed_increments": 3000, "workers_found_blocked_on_a_lock": 50,
+        "run": generic(sanitizers=('tsan',), thorough_profiles=(), nshards=8, timeout_quick=1800, env=SHIM_ENV, pre=build_shim),
+        "floors": {"any": {"executions": 1000, "executions_starting_after_a_failed_remap(file_long,map_short)": 100, "preemptions": 1000, "committed_increments": 3000, "workers_found_blocked_on_a_lock": 50,
                            "free_running_executions": 100}},
         "assumptions": ["each thread holds at most one transaction", "deadlock = every live worker asleep (state S) in a futex wait with no event for 200 ms (baton) / 1 s (free running)"],
     },
@@ -356,20 +368,23 @@ PROPS = {
                 "markers of the k-1 earlier ones; no opener errors, panics, dies or hangs (watchdog => inconclusive). "
                 "non-trivial = run with a forced ordering or one in which an opener demonstrably waited for another.",
         "run": generic(thorough_profiles=(), pre=build_shim, extra_sets=("shim=" + SHIM,), nshards=8),
-        "floors": {"any": {"runs_with_forced_ordering": 12, "runs_on_file_not_yet_created": 15, "runs_on_existing_file": 10, "runs_with_3_processes": 5,
+        "floors": {"any": {"runs_followed_by_a_final_opener_that_found_everything": 100, "runs_in_which_a_holder_extended_the_file_with_others_queued": 30, "runs_with_forced_ordering": 12, "runs_on_file_not_yet_created": 15, "runs_on_existing_file": 10, "runs_with_3_processes": 5,
                            "runs_in_which_an_opener_had_to_wait_for_another": 10}},
         "assumptions": ["flock is issued by a raw system call and cannot be gated itself; the libc calls on both sides of it are"],
     },
     "C14": {
         "level": "other",
-        "rule": "cases = corpus programs (generated by c14/gen_corpus.py): 91 'reject' programs, one per (type, escape route) - KVPair / Data / "
+        "rule": "cases = corpus programs (generated by c14/gen_corpus.py; counts per kind are in the counters): 'reject' programs, one per (type, escape route) - KVPair / Data / "
                 "BucketName obtained through every public accessor and kept as itself, as a borrowed slice or as a clone past the end of the "
                 "transaction's scope and past commit; Bucket / Cursor / Range / Buckets / KVPairs handles kept past scope end and past commit; a Tx "
                 "past its DB; short-lived keys, values and bucket names; Tx / Bucket / Cursor / KVPair / Data moved or shared into another thread - each "
-                "must be rejected by rustc with one of the listed borrow / lifetime / Send error codes; 26 'twin' programs (the same programs carrying "
-                "owned copies) and 5 'accept' programs (ordinary usage incl. a cloned DB on four threads) must compile and run; 41 'generated' programs "
+                "must be rejected by rustc with one of the listed borrow / lifetime / Send error codes; 'twin' programs (the same programs carrying "
+                "owned copies) and 'accept' programs (ordinary usage incl. a cloned DB on four threads) must compile and run; 'generated' programs "
                 "carry every conversion the API offers (to_vec, Debug, to_bytes by value / by reference / of a clone ...) out of the transaction and "
-                "must be rejected or run clean. Every program that compiles is run: it ends its transaction, rewrites all data six times (page reuse) "
+                "must be rejected or run clean; 'speculative' programs ATTEMPT conversions the API does not offer today (to_bytes on KVPair / Data and on "
+                "references and clones of them, Into<Vec<u8>> / Into<Box<[u8]>> / Into<String>, to_vec, to_string, into_owned ... on every type from every "
+                "accessor): not offered (no such method / trait not implemented) or rejected by the borrow checker is fine, but one that compiles after a "
+                "change to the crate is run as a probe like the generated ones. Every program that compiles is run: it ends its transaction, rewrites all data six times (page reuse) "
                 "and grows the file twice (remap; replaced maps become PROT_NONE), re-reading the carried value after each step. "
                 "non-trivial = reject program rejected with an expected code, or generated program that compiled and ran.",
         "explanation": "The rejection half of this property is a compile-time fact: the only possible observation of it is to run the compiler, so the check "
@@ -379,7 +394,7 @@ PROPS = {
                        "memcheck. 'All programs' is out of reach: the corpus is finite and recipe-driven; the public API surface is enumerated from "
                        "rustdoc JSON only to report which items the corpus does not exercise.",
         "run": c14mod.run,
-        "floors": {"any": {"reject_programs_rejected": 100, "twin_programs_compiled": 30, "accept_programs_compiled": 5, "probe_runs_clean": 50}},
+        "floors": {"any": {"reject_programs_rejected": 100, "twin_programs_compiled": 30, "accept_programs_compiled": 5, "probe_runs_clean": 50, "corpus_speculative_programs": 100}},
         "assumptions": ["rustc's verdict on the corpus program is taken as the observation of 'is a compile-time error'",
                         "the corpus is finite; escape routes it does not contain are not judged"],
         "crash_is_violation": False,
